@@ -52,6 +52,15 @@ func c15Scenarios(thorough bool) []*c15Scenario {
 		{name: "dup-upload-257 (pending 257 / mirror 0)", prefix: []c15Event{cp(0, 257)},
 			threads: [][]c15Event{{ae(0, 257)}, {ae(0, 257)}}, bound: d(1, 2), faults: true, crashes: true},
 	}
+	// One client commits the older pending 257 with its ticket while the next
+	// entry (300) is further inside the same tile, and repeats the request: a
+	// failed upload of a cut tile in the first attempt must not let the retry
+	// sign. (Prefix: the [0,300) upload is aborted at the before-commit seam.)
+	tc := c15Event{Kind: "ae", Start: 257, End: 257, Ticket: "held:257"}
+	out = append([]*c15Scenario{
+		{name: "ticket-commit-257 below next entry 300, then the same request again", prefix: []c15Event{cp(0, 257), cp(257, 300), {Kind: "ae", Start: 0, End: 300, Cut: "pre-commit-abort"}},
+			threads: [][]c15Event{{tc, tc}}, bound: d(1, 2), faults: true, crashes: true},
+	}, out...)
 	if thorough {
 		out = append([]*c15Scenario{
 			{name: "dup-upload-600 (pending 600 / mirror 0, three packages)", prefix: []c15Event{cp(0, 600)},
@@ -176,7 +185,7 @@ func c15RunExec(t *testing.T, sc *c15Scenario, prefix []int) *verifmc.ExecResult
 			panic(verifmc.EngineError{Msg: "c15: initial NewWitness failed: " + err.Error()})
 		}
 		for _, ev := range sc.prefix {
-			if r := w.apply(ev); r.NA || (ev.Kind == "cp" && r.Status != 200) {
+			if r := w.apply(ev); r.NA || (ev.Kind == "cp" && r.Status != 200) || (ev.Cut == "pre-commit-abort" && !r.Aborted) {
 				panic(verifmc.EngineError{Msg: fmt.Sprintf("c15: scenario %q: prefix event %v -> %v", sc.name, ev, r)})
 			}
 		}
